@@ -61,6 +61,9 @@ def run(ctx, rep):
     table(prog, rep)
     bounded_write(ctx, rep)
     progress(prog, rep)
+    slot_only_for_symbols(prog, rep)
+    flush_loop(prog, rep)
+    length_formulas(prog, rep)
 
 
 def table(prog, rep):
@@ -220,3 +223,134 @@ def progress(prog, rep):
         rep.ob(rule, "leaf either exits or consumes an output slot", not bad and bool(outs),
                "from the leaf branch the decoder cannot get back to reading bits without passing output.next() (or leaving)" if not bad else
                "a leaf can be decoded without consuming output: the loop could spin on garbage", b.loc())
+
+
+def slot_only_for_symbols(prog, rep):
+    """R3b: the decoder asks for an output slot only once it knows the leaf is a byte, not EOF -- otherwise a stream whose
+    output exactly fills the buffer fails with a capacity error the reference does not raise"""
+    rule = "R3b-slot-after-eof-test"
+    b = prog.one(H + "Huffman::decompress_unsafe")
+    ir = IR(b)
+    eof = prog.constv(H + "EOF")
+    outs = [(bi, t) for bi, t in b.calls() if (t.get("callee") or "").endswith("::next") and "output" in show(ir.term_operand(bi, t["args"][0]))]
+    rep.floor(rule, len(outs), 1, "output.next() in decompress_unsafe")
+    for i, (bi, t) in enumerate(outs):
+        ok = False
+        for c, rel, v, edge, dty in ir.edge_conditions(bi):
+            if c[0] == "bin" and c[1] in ("Eq", "Ne") and any(x[0] == "c" and x[1] == eof for x in (c[2], c[3])):
+                is_eof = (rel == "==" and v == 1) or (rel == "notin" and 0 in v)
+                if c[1] == "Ne":
+                    is_eof = not is_eof
+                if not is_eof:
+                    ok = True
+        rep.ob(rule, "output.next() #%d is reached only for a non-EOF leaf" % i, ok,
+               "the slot is requested after the `== EOF` test failed" if ok else
+               "a slot is requested before the leaf is known not to be EOF: decoding into a buffer of exactly the decoded length fails", b.loc(t.get("ln")))
+
+
+def flush_loop(prog, rep):
+    """R2b: in the compressor the test `symbol.num_bits - bits_written >= 8` is a loop test (re-evaluated after every byte it
+    flushes), so that a code of up to 24 bits is flushed completely and fewer than 8 bits are carried over"""
+    rule = "R2b-flush-until-less-than-a-byte"
+    b = prog.one(H + "Huffman::compress_impl_unsafe")
+    ir = IR(b)
+    tests = []
+    for bi in sorted(b.live):
+        t = b.blocks[bi]["term"]
+        if t["k"] != "switch":
+            continue
+        e = ir.term_operand(bi, t["o"])
+        if e[0] == "bin" and e[1] in ("Ge", "Gt", "Lt", "Le") and e[3][0] == "c" and e[3][1] in (7, 8) and \
+                e[2][0] == "bin" and e[2][1] == "Sub" and "num_bits" in show(e[2][2]):
+            tests.append((bi, e))
+    rep.floor(rule, len(tests), 1, "the `remaining bits >= 8` test in compress_impl_unsafe")
+    # the symbol loop's header: next() on the chained input iterator
+    outer = [bi for bi, t in b.calls() if (t.get("callee") or "").endswith("::next") and "Chain" in (t.get("callee") or "")]
+    if not outer:
+        raise AnchorLost("compress_impl_unsafe: the symbol loop (Chain::next) was not found")
+    for bi, e in tests:
+        t = b.blocks[bi]["term"]
+        # successor taken when at least a byte remains
+        more = None
+        for v, tb in t["targets"]:
+            if (e[1] in ("Ge", "Gt")) == (v != 0):
+                more = tb
+        if more is None:
+            more = t["otherwise"]
+        again = bi in b.reachable_from(more, removed_blocks=frozenset(outer))
+        rep.ob(rule, "the test is re-evaluated after a flushed byte", again,
+               "while (remaining >= 8) { flush a byte }: the inner cycle does not go through the symbol loop" if again else
+               "the test is evaluated once per symbol: a code longer than 16 bits leaves a whole byte unflushed", b.loc(t.get("ln")))
+
+
+def _arith(e, n, atom_pred):
+    """evaluate a closed arithmetic expression over the atom n"""
+    if atom_pred(e):
+        return n
+    if e[0] == "c" and isinstance(e[1], int):
+        return e[1]
+    if e[0] == "bin" and e[1] in ("Add", "Sub", "Mul", "Div", "Rem", "Shr", "Shl"):
+        a, c = _arith(e[2], n, atom_pred), _arith(e[3], n, atom_pred)
+        if a is None or c is None:
+            return None
+        if e[1] == "Add":
+            return a + c
+        if e[1] == "Sub":
+            return a - c
+        if e[1] == "Mul":
+            return a * c
+        if e[1] == "Div":
+            return a // c if c else None
+        if e[1] == "Rem":
+            return a % c if c else None
+        if e[1] == "Shr":
+            return a >> c
+        return a << c
+    if e[0] == "call" and e[1].endswith("::div_ceil") and len(e[2]) == 2:
+        a, c = _arith(e[2][0], n, atom_pred), _arith(e[2][1], n, atom_pred)
+        return None if a is None or not c else -(-a // c)
+    if e[0] == "cast":
+        return _arith(e[3], n, atom_pred)
+    return None
+
+
+def length_formulas(prog, rep):
+    """R5: compressed_len = ceil(bits / 8) and compressed_len_bug = bits / 8 + 1 as functions of compressed_bit_len(input)
+    (the compressor emits a last byte iff bits % 8 != 0, or always in the reference-compatible form).  The returned arithmetic
+    expression is evaluated for every residue of the bit count (closed form over one atom; no code is run)."""
+    rule = "R5-length-formulas"
+    from ..bits import BitEval, Unsupported
+    be = BitEval(prog)
+    for fn, want, text in (("compressed_len", lambda n: -(-n // 8), "ceil(bits / 8)"),
+                           ("compressed_len_bug", lambda n: n // 8 + 1, "bits / 8 + 1")):
+        b = prog.one(H + "Huffman::" + fn)
+        try:
+            e, rb = be.ret_expr(b.id)
+        except Unsupported as ex:
+            rep.ob(rule, fn, False, "cannot read the returned expression: %s" % ex, b.loc())
+            continue
+        isatom = lambda x: x[0] == "call" and x[1] == H + "Huffman::compressed_bit_len"
+        bad = None
+        for n in range(0, 64):
+            got = _arith(e, n, isatom)
+            if got is None:
+                bad = "not a closed arithmetic form over compressed_bit_len(input): %s" % show(strip_sites(e))[:100]
+                break
+            if got != want(n):
+                bad = "for a bit length of %d the function returns %d, the compressor emits %d bytes" % (n, got, want(n))
+                break
+        rep.ob(rule, fn, bad is None, "%s = %s for every residue of the bit count" % (fn, text) if bad is None else bad, b.loc())
+    # the compressor's last byte: emitted iff num_output_bits > 0 || bug
+    b = prog.one(H + "Huffman::compress_impl_unsafe")
+    ir = IR(b)
+    rets = [bi for bi in sorted(b.live) for st in b.blocks[bi]["st"]
+            if st["k"] == "assign" and st["r"]["k"] == "agg" and st["r"].get("variant") == "Ok"]
+    ok = False
+    for bi in sorted(b.live):
+        t = b.blocks[bi]["term"]
+        if t["k"] == "switch":
+            e = ir.term_operand(bi, t["o"])
+            if e[0] == "bin" and e[1] in ("Gt", "Ne") and e[3][0] == "c" and e[3][1] == 0 and bi not in set(x for c in b.sccs() for x in c):
+                ok = True
+    rep.ob(rule, "last byte iff bits pending", ok, "after the symbol loop a final byte is written iff num_output_bits > 0 (or in the reference-compatible form)"
+           if ok else "the trailing-byte test after the symbol loop was not found", b.loc())
